@@ -146,10 +146,9 @@ def main():
         open(path, "w").write("\n".join(lines))
         rec = {"file": f, "line": i + 1, "old": old.strip(), "new": new.strip(), "repo_head": head}
         t0 = time.time()
-        rc, o = sh("cargo test --workspace --offline 2>&1 | tail -40", timeout=1500, cwd=WT)
+        rc, o = sh("cargo test --workspace --offline 2>&1", timeout=1500, cwd=WT)
         passed = sum(int(x) for x in re.findall(r"test result: ok\. (\d+) passed", o))
-        failed = "FAILED" in o or "error" in o.lower() and "test result" not in o
-        if failed or passed < 53:
+        if rc != 0 or passed < 53:
             rec["status"] = "killed_by_build_or_tests"
             rec["passed"] = passed
         else:
